@@ -34,7 +34,9 @@ RULE = ("(a) pairs of affine shape expressions c0 + c1*n + c2*m (+ c3*k) with "
         "shape evaluated at every valuation in 1..6 per parameter equals "
         "NumPy's shape of the concrete program; operand combinations are "
         "accepted exactly when the forms are identically equal or 1 (also "
-        "drawn: deliberately mismatching forms, which must be rejected).  (c) "
+        "drawn: deliberately mismatching forms - in a sum, a stack, under one "
+        "einsum letter, in three-operand broadcasting around a unit axis - "
+        "which must be rejected).  (c) "
         "the program is compiled ONCE (generate_loopy + gcc) and launched for "
         "every valuation in {1..6}^k (36 sizes for two parameters): values "
         "equal NumPy's each time.  non-trivial: (a) forms differ "
@@ -342,6 +344,24 @@ def sym_programs(draw):
             add({"op": "altadd", "args": [i], "shape": sh,
                  "seed": draw(st.integers(0, 50)),
                  "name": f"alt{len(nodes)}"}, sh)
+        elif kind == "bad" and sh and draw(st.booleans()):
+            # other places where axis forms are matched: stack, an einsum
+            # letter repeated within one operand, three-operand broadcasting
+            # with a unit axis in the middle - each must refuse forms that
+            # are not identically equal (static vs symbolic included)
+            d = draw(st.integers(0, len(sh) - 1))
+            others = [a for a in AXES if a != "1" and sh[d] != "1"
+                      and AXES[a][1] != AXES[sh[d]][1]]
+            if not others:
+                continue
+            bad = list(sh)
+            bad[d] = draw(st.sampled_from(others))
+            how = draw(st.sampled_from(["stack", "einsum_repeat", "where3"]))
+            nodes.append({"op": "badop", "how": how, "args": [i], "shape": bad,
+                          "axis": d})
+            shapes.append(None)
+            nodes.append({"op": "alias", "args": [i]})
+            shapes.append(sh)
         else:
             # deliberately mismatching axes: must be rejected
             if not sh:
@@ -448,12 +468,46 @@ def build_sym(desc, names=None):
                 tuple(axis_pt(x, sp, alt=True)
                                   for x in nd["shape"]), np.float64)
             env.append(a[0] + other)
+        elif op == "badop":
+            other = pt.make_placeholder(
+                "bad", tuple(axis_pt(x, sp) for x in nd["shape"]), np.float64)
+            d = nd["axis"]
+            try:
+                if nd["how"] == "stack":
+                    r = pt.stack([a[0], other])
+                elif nd["how"] == "einsum_repeat":
+                    # a two-axis operand whose axes are the two mismatching
+                    # forms, under one letter
+                    two = pt.make_placeholder(
+                        "bad2", (a[0].shape[d], other.shape[d]), np.float64)
+                    r = pt.einsum("ii->i", two)
+                else:
+                    # cond: (form A,), x: (1,), y: (form B,)
+                    c = pt.make_placeholder("badc", (a[0].shape[d],), np.float64)
+                    x1 = pt.make_placeholder("bad1", (1,), np.float64)
+                    y = pt.make_placeholder("bady", (other.shape[d],),
+                                            np.float64)
+                    r = pt.where(pt.greater(c, 0), x1, y)
+            except ValueError:
+                # (CannotBroadcastError is one)
+                rejected_ok += 1
+                env.append(None)
+                continue
+            except AssertionError as e:
+                # (an internal assertion further down is not a diagnosis:
+                # under python -O the mismatch would go through)
+                raise AcceptedMismatch(
+                    f"{nd['how']}: mismatching forms reach an internal "
+                    f"assertion instead of being refused: {e}") from e
+            raise AcceptedMismatch(
+                f"{nd['how']}: axes {nd['shape']} (position {d}) against the "
+                "operand's were matched although the forms differ")
         elif op == "badadd":
             other = pt.make_placeholder(
                 "bad", tuple(axis_pt(x, sp) for x in nd["shape"]), np.float64)
             try:
                 r = a[0] + other
-            except Exception:  # noqa: BLE001
+            except ValueError:
                 rejected_ok += 1
                 env.append(None)
                 continue
@@ -527,7 +581,7 @@ def eval_sym(desc, val):
             elif op == "altadd":
                 env.append(a[0] + input_values(tuple(
                     axis_len(x, val) for x in nd["shape"]), nd["seed"]))
-            elif op == "badadd":
+            elif op in ("badadd", "badop"):
                 env.append(None)
     return env
 
